@@ -43,12 +43,15 @@ class Vars:
                 c = c.b
             self.assumptions.append(c)
 
-    def float(self, name, nan=False, lo=-VMAX, hi=VMAX):
+    def float(self, name, nan=False, lo=-VMAX, hi=VMAX, menu=None):
         v = z3.Real(name)
         self.names.append(name)
         self.assumptions += [v >= lo, v <= hi]
         k = z3.Int(name + "!k")
         self.grid.append(v * GRID == z3.ToReal(k))
+        if menu is not None:
+            # only used when a concrete model is requested (keeps CEGAR over the geodesic finite)
+            self.grid.append(z3.Or(*[v == rv(m) for m in menu]))
         n = z3.Bool(name + "!nan") if nan else FALSE
         return SFloat(n, v)
 
@@ -426,6 +429,48 @@ def _havoc_consts(terms):
     return list(out.values())
 
 
+def real_geod(lat1, lon1, lat2, lon2):
+    from geographiclib.geodesic import Geodesic
+    try:
+        r = Geodesic.WGS84.Inverse(lat1, lon1, lat2, lon2)["s12"]
+    except Exception:
+        return None
+    if r != r:
+        return None
+    return float(r)
+
+
+def geod_model(ex, cons, calls, max_rounds=25):
+    """Model of `cons` whose interpretation of the uninterpreted geodesic agrees with geographiclib at the
+    points it uses (CEGAR, DESIGN §5.2).  Without geod calls this is a plain model query."""
+    if not calls:
+        return ex.model_of(*cons)
+    from .symgeo import GEOD
+    facts = []
+    for _ in range(max_rounds):
+        r, m = ex.model_of(*cons, *facts)
+        if r != z3.sat:
+            return r, None
+        new = []
+        for args in calls:
+            vals = [_ev(m, a) for a in args]
+            if not all(z3.is_rational_value(v) or z3.is_int_value(v) for v in vals):
+                continue
+            fl = [float(_numval(v)) for v in vals]
+            if any(Fraction(f) != _numval(v) for f, v in zip(fl, vals)):
+                continue
+            real = real_geod(*fl)
+            if real is None:
+                continue
+            gv = _ev(m, GEOD(*vals))
+            if _numval(gv) != Fraction(real):
+                new.append(GEOD(*vals) == rv(real))
+        if not new:
+            return z3.sat, m
+        facts += new
+    return z3.unknown, None
+
+
 def run_job(job, seed=0, replay_dir=None):
     """Run one job; returns a JSON-able result dict."""
     t0 = time.time()
@@ -508,6 +553,10 @@ def run_job(job, seed=0, replay_dir=None):
                 res["inconclusive"].append(f"path {res['paths']}: holds: {e}")
                 continue
             axioms = list(out.extra.get("axioms", []))
+            calls = [d for k, d in path.events if k == "geod"]
+            if calls:
+                from .symgeo import geod_axioms
+                axioms += geod_axioms(calls)
             # havoc (uninitialised memory) dependence of the observable result
             if not out.raised:
                 hv = _havoc_consts(list(out.flags) + list(out.mask))
@@ -524,9 +573,9 @@ def run_job(job, seed=0, replay_dir=None):
             # witness for this path (validates the environment model against the real stack)
             wmodel = None
             if job.validate_witnesses:
-                r, wmodel = ex.model_of(*pc, *axioms, *V.grid)
-                if r != z3.sat:
-                    r, wmodel = ex.model_of(*pc, *axioms)
+                r, wmodel = geod_model(ex, [*pc, *axioms, *known_excl, *V.grid], calls)
+                if r != z3.sat and not calls:
+                    r, wmodel = ex.model_of(*pc, *axioms, *known_excl)
                 if r == z3.sat and exact_on_grid(S, wmodel):
                     Sc, rout = real_outcome(wmodel)
                     ok, detail = same_outcome(out, rout, wmodel)
@@ -564,9 +613,15 @@ def run_job(job, seed=0, replay_dir=None):
                     res["inconclusive"].append(f"path {res['paths']}: obligation '{label}': solver {r}")
                     continue
                 # counterexample: prefer one on the float grid, replay on the real stack
-                r2, m = ex.model_of(*pc, *axioms, *known_excl, neg, *V.grid)
-                if r2 != z3.sat:
+                r2, m = geod_model(ex, [*pc, *axioms, *known_excl, neg, *V.grid], calls)
+                if r2 != z3.sat and not calls:
                     r2, m = ex.model_of(*pc, *axioms, *known_excl, neg)
+                if r2 == z3.unsat and calls:
+                    # the violation exists only for geodesic values geographiclib never produces on the menu
+                    res["discharged"] += 1
+                    res.setdefault("cegar_discharged", 0)
+                    res["cegar_discharged"] += 1
+                    continue
                 if m is None:
                     res["inconclusive"].append(f"path {res['paths']}: obligation '{label}': no model")
                     continue
